@@ -120,14 +120,23 @@ def run(chk, variant="std"):
     res = vlib.run_cases(binary, cases, tmo=60, shards=8, max_abnormal=6, env={"TSAN_OPTIONS": "halt_on_error=1 exitcode=66"})
     # a divergence (exit code 96) or another abnormal end is re-run alone with a six times longer stall limit; only a repeated
     # divergence is reported (a stall on an overloaded machine must not become a false alarm)
-    bad = [k for k, rr in enumerate(res) if rr.get("outcome") not in (None, "not_run") or (rr.get("outcome") is None and rr.get("ok") is not True)][:12]
+    bad = [k for k, rr in enumerate(res) if rr.get("outcome") not in (None, "not_run") or (rr.get("outcome") is None and rr.get("ok") is not True)]
     if bad:
-        again = vlib.run_cases(binary, [dict(cases[k], stall_ms=60000) for k in bad], tmo=200, shards=len(bad), max_abnormal=1)
-        for k, r2 in zip(bad, again):
+        # the first four are re-run (each alone, in parallel); the others are reported only if all of these repeat
+        first = bad[:4]
+        with cf.ThreadPoolExecutor(max_workers=len(first)) as ex:
+            again = list(ex.map(lambda k: vlib.run_cases(binary, [dict(cases[k], stall_ms=60000)], tmo=200, shards=1, max_abnormal=1)[0], first))
+        repeated = 0
+        for k, r2 in zip(first, again):
             if r2.get("outcome") is None and r2.get("ok") is True:
                 res[k] = dict(r2, retried=True)
             else:
                 res[k] = dict(r2, first=res[k].get("stderr") or res[k].get("why"))
+                repeated += 1
+        if repeated < len(first):
+            # some did not repeat (overloaded machine): do not trust the un-re-run ones either
+            for k in bad[4:]:
+                res[k] = {"ok": None, "outcome": "not_run"}
     nmulti = nrot = nfail = 0
     for c, rr in zip(cases, res):
         if rr.get("outcome") == "not_run":
